@@ -689,12 +689,20 @@ def iterations (fuel : Nat) (r : Recipe) : Nat → Ctx → Bool → St → R Ctx
         iterations fuel r k { c1 with vars := c1.vars.map (fun p => (p.1, freezeVal s1 p.2)) } true
           (resetSlots s1)
 
+def dropRowVals (r : RowData) : RowData :=
+  { r with values := r.values.filter (fun p => match p.2 with | .row _ => false | _ => true) }
+
+/-- the rows a continuation file holds: those bound to a persistent nickname or table name -/
+def isPersistent (s : St) (h : Nat) : Bool := (s.pNick ++ s.pTable).any (fun p => p.2 == h)
+
 /-- what a continuation keeps: ids, persistent rows (their row-valued fields dropped, as
-    `ObjectRow.__getstate__` does), name bindings; the output accumulates over the chain. -/
+    `ObjectRow.__getstate__` does), name bindings; the output accumulates over the chain.
+    Rows that are not persistent are not in the file at all; here they stay in `rows` untouched,
+    where nothing can reach them any more (`nick`, `seen` and the variables are emptied and the
+    persistent rows have lost their row-valued fields). -/
 def saveLoad (s : St) : St :=
   { s with nick := [], seen := [], slots := s.names.map (fun p => (p.1, SlotSt.unused)),
-           rows := (freezeRows s).map (fun r => { r with values := r.values.filter (fun p =>
-             match p.2 with | .row _ => false | _ => true) }) }
+           rows := (freezeRows s).mapIdx (fun h r => if isPersistent s h then dropRowVals r else r) }
 
 /-- `save_continuation_yaml` fails (RepresenterError) when a persistent row holds a slot value -/
 def saveFails (s : St) : Bool :=
